@@ -412,14 +412,38 @@ func GenSession(prop string, seed uint64, thorough bool) *Scenario {
 				} else {
 					c.Upgrade = ""
 					if g.p(0.6) {
-						dur := 0
+						// when is the scripted candidate out of the way?  The server closes it on the first packet that
+						// is neither probe nor upgrade, the script may disconnect, a 'waitpong' without an outstanding
+						// probe waits for the upgrade timeout, and a candidate left open lives until the upgrade timeout
+						t, probes, ended := 0, 0, false
 						for _, op := range c.Cand {
-							dur += op.WaitMs
+							t += op.WaitMs
+							switch op.Op {
+							case "probe":
+								probes++
+							case "waitpong":
+								if probes == 0 {
+									if t < ut {
+										t = ut
+									}
+									ended = true
+								} else {
+									probes--
+								}
+							case "wait":
+							case "upgrade", "disconnect":
+								ended = true
+							default:
+								ended = true
+							}
+							if ended {
+								break
+							}
 						}
-						c.Retry, c.RetryAtMs = true, c.CandAtMs+dur+g.pick(150, 300, 600)+12*c.LatencyMs
-						if dur < ut && g.p(0.5) {
-							c.RetryAtMs = c.CandAtMs + ut + g.pick(150, 400) + 12*c.LatencyMs
+						if !ended && t < ut {
+							t = ut
 						}
+						c.Retry, c.RetryAtMs = true, c.CandAtMs+t+g.pick(150, 300, 600)+12*c.LatencyMs
 						if c.RetryAtMs+700 > sc.HorizonMs {
 							sc.HorizonMs = c.RetryAtMs + 700 + g.rng(0, 500)
 						}
